@@ -7,6 +7,9 @@ import (
 	"os"
 	"strings"
 	"time"
+
+	"github.com/Azbesciak/RealDecisionMaker/lib/model"
+	"github.com/Azbesciak/RealDecisionMaker/lib/utils"
 )
 
 // C20: the HTTP service answers every request and survives it.
@@ -310,8 +313,62 @@ func weirdBodies(r *Rng, q *Req) []J {
 	return out
 }
 
+// a method that accepts anything: isolates the request-level validation of MakeDecision
+type stubMethod struct{}
+
+func (s *stubMethod) Identifier() string                              { return "stubMethod" }
+func (s *stubMethod) MethodParameters() interface{}                   { return nil }
+func (s *stubMethod) ParseParams(dm *model.DecisionMaker) interface{} { return nil }
+func (s *stubMethod) Evaluate(d *model.DecisionMakingParams) *model.AlternativesRanking {
+	return &model.AlternativesRanking{}
+}
+
+// stage validate-request (corr): MakeDecision with the stub method vs Model/Validate.lean
+func validateStage(o *Out, r *Rng, c int) {
+	p := genProblem(r, ProbOpts{MaxCrit: 4, MaxAlt: 4})
+	method := "stubMethod"
+	what := "valid"
+	switch r.Intn(9) {
+	case 0:
+		p.Criteria = append(p.Criteria, p.Criteria[r.Intn(len(p.Criteria))])
+		what = "duplicate-criterion"
+	case 1:
+		p.Criteria[0].ValuesRange = &utils.ValueRange{Min: 2, Max: 2}
+		what = "empty-range"
+	case 2:
+		p.Criteria[0].ValuesRange = &utils.ValueRange{Min: 2, Max: -2}
+		what = "inverted-range"
+	case 3:
+		delete(p.Known[r.Intn(len(p.Known))].Criteria, p.Criteria[r.Intn(len(p.Criteria))].Id)
+		what = "missing-value"
+	case 4:
+		p.Chosen = append(p.Chosen, "noSuchAlternative")
+		what = "unknown-alternative"
+	case 5:
+		method = []string{"", " ", "\t ", "  \n"}[r.Intn(4)]
+		what = "blank-method"
+	}
+	dm := &model.DecisionMaker{PreferenceFunction: method, KnownAlternatives: p.Known, ChoseToMake: p.Chosen, Criteria: p.Criteria}
+	fs := model.PreferenceFunctions{Functions: []model.PreferenceFunction{&stubMethod{}}}
+	msg := recoverErr(func() { dm.MakeDecision(fs, biasListeners, &biases, seededGen) })
+	o.count("validate:" + what)
+	m := Meta{Case: c, Stage: "validate-request", Class: what, Input: J{"method": method, "criteria": p.Criteria, "knownAlternatives": p.Known, "choseToMake": p.Chosen},
+		Key: "v" + sxString(critsSX(p.Criteria)) + sxString(altsSX(p.Known)) + sxString(Strs(p.Chosen)) + method}
+	msx := strings.NewReplacer(" ", "_", "\t", "_", "\n", "_").Replace(method) // white space is not representable in an atom
+	if what == "blank-method" {
+		msx = ""
+	}
+	o.Corr(m, L(A("validate-request"), Str(msx), critsSX(p.Criteria), altsSX(p.Known), Strs(p.Chosen)), okSX(resSX(msg, func() SX { return L() })))
+	ms := m
+	ms.Stage = "validate-request:verdict"
+	o.Oracle(ms, (msg == "") == (what == "valid"), "request-level validation verdict is wrong for a request with: "+what)
+}
+
 func init() {
 	props["C20"] = func(o *Out, r *Rng, n int, thorough bool) {
+		for c := 0; c < n/2; c++ {
+			validateStage(o, r, c)
+		}
 		dir, _ := os.Getwd()
 		s, err := startServer(dir)
 		if err != nil {
